@@ -844,6 +844,78 @@ func TestVerifSendBatch(t *testing.T) {
 			rep.bad("batch-call-executed-twice", "%s: the increment of row a3 was executed %d times (its success had been received)", name, execs["a3"])
 		}
 	}
+	// ---- the server refuses a WHOLE multi request (the exception is in the response header: call queue too big, server too
+	// busy, the region of a single-region multi not serving) and answers the re-sent one: every call ends with its own
+	// answer, executed once
+	for ci, class := range []string{verifsim.ExcQueueTooBig, verifsim.ExcTooBusy, verifsim.ExcNotServing} {
+		name := "whole-multi-refused-in-the-response-header/" + class[strings.LastIndex(class, ".")+1:]
+		var kinds []string
+		returned := false
+		execs := map[string]int{}
+		verifsim.Bubble(t, func(t *testing.T) {
+			tr := &verifsim.Trace{}
+			cl := verifsim.NewCluster(tr)
+			cl.AddServer("ms:1")
+			cl.AddServer("s1")
+			cl.CreateTable("t", nil, []string{"s1"})
+			c := newSimClient(cl, RpcQueueSize(4+ci), FlushInterval(time.Millisecond))
+			g, _ := hrpc.NewGet(context.Background(), []byte("t"), []byte("a0"))
+			c.Get(g)
+			synctest.Wait()
+			var once atomic.Bool
+			cl.Lock()
+			cl.Rules = append(cl.Rules, func(_ *verifsim.Cluster, rs *verifsim.RS, sc *verifsim.ServerConn, req *verifsim.Request, rn []byte) *verifsim.Directive {
+				if req.Method == "Multi" && once.CompareAndSwap(false, true) {
+					return &verifsim.Directive{Exc: class, Stack: "at org.apache.hadoop.hbase.ipc.Something"}
+				}
+				return nil
+			})
+			cl.Unlock()
+			vals := map[string]map[string][]byte{"f": {"q": []byte("v")}}
+			var batch []hrpc.Call
+			for _, k := range []string{"r1", "r2", "r3"} {
+				p, _ := hrpc.NewPut(context.Background(), []byte("t"), []byte(k), vals)
+				batch = append(batch, p)
+			}
+			ctx, cancel := context.WithCancel(context.Background())
+			done := make(chan struct{})
+			var res []hrpc.RPCResult
+			go func() { res, _ = c.SendBatch(ctx, batch); close(done) }()
+			time.Sleep(3 * time.Minute)
+			synctest.Wait()
+			select {
+			case <-done:
+				returned = true
+				for _, r := range res {
+					kinds = append(kinds, sbKind(r))
+				}
+			default:
+			}
+			cancel()
+			time.Sleep(time.Second)
+			cl.Lock()
+			for _, e := range cl.Execs {
+				if strings.HasPrefix(e.Row, "r") {
+					execs[e.Row]++
+				}
+			}
+			cl.Unlock()
+			c.Close()
+			time.Sleep(time.Minute)
+			synctest.Wait()
+		})
+		ran++
+		if !returned {
+			rep.bad("batch-never-returns", "%s: SendBatch has not returned 3 virtual minutes after its first multi request was refused and the second answered", name)
+		} else if fmt.Sprint(kinds) != "[ok ok ok]" {
+			rep.bad("batch-results-differ", "%s: SendBatch returned %v; every call succeeds in the re-sent request", name, kinds)
+		}
+		for _, k := range []string{"r1", "r2", "r3"} {
+			if returned && execs[k] != 1 {
+				rep.bad("batch-call-not-executed-once", "%s: the put of row %s was executed %d times", name, k, execs[k])
+			}
+		}
+	}
 	rep.Scenarios = ran
 	rep.Distinct = ran
 	rep.Extra["scripts_available"] = len(scripts)
